@@ -167,7 +167,16 @@ def process(rep, fam, keys, configs, containers_for, sink, quiet=False):
                               'an array obtained by slicing / taking kept the parent\'s spatial index',
                               {**meta, 'container': container})
             if cfg is not None:
-                if cfg[0] == 'twice':
+                if cfg[0] == 'prop':
+                    # the lazy .sindex property (default p and page_size)
+                    t = (obj.geometry if container == 'frame' else obj).sindex
+                    ga = fam.geom_array(obj, container)
+                    if t is None or ga._sindex is not t or t._page_size != 512:
+                        rep.violation('sindex-property',
+                                      'the .sindex property did not build and cache a default index',
+                                      {**meta, 'container': container})
+                        continue
+                elif cfg[0] == 'twice':
                     obj.build_sindex(page_size=cfg[1], p=cfg[2])
                     obj.build_sindex(page_size=cfg[3], p=cfg[4])
                     ga = fam.geom_array(obj, container)
@@ -231,7 +240,13 @@ def process(rep, fam, keys, configs, containers_for, sink, quiet=False):
                             if len(cv) and len(ov):
                                 rep.count('covered+overlaps-mixed')
             if skey not in by_state:
-                by_state[skey] = (state, results, container, cfg, U.export_garr(kind, ga))
+                garr = U.export_garr(kind, ga)
+                if not U.modelled(kind, garr):
+                    rep.violation('not-modelled:odd-offset',
+                                  'an element part does not start on an (x, y) pair boundary of the '
+                                  'values buffer (hypothesis g_modelled of the C04 theorems)',
+                                  {**meta, 'container': container})
+                by_state[skey] = (state, results, container, cfg, garr)
             else:
                 _, first, c0, cfg0, _ = by_state[skey]
                 for (pykey, _, tag), a, b in zip(keys, first, results):
@@ -294,8 +309,17 @@ def flush(rep, sink):
     bad = C.coq_mismatches(U.IMPORTS, 'cx_case', U.CASE_TY, U.RES_TY, sink['cases'], sink['results'],
                            shard=60)
     for i in bad[:10]:
-        m = sink['metas'][i]
-        model = C.coq_eval(U.IMPORTS, f'cx_case {C.coq(sink["cases"][i])}')
+        m = dict(sink['metas'][i])
+        garr, st, mkeys = sink['cases'][i]
+        # narrow the batch down to the first key on which the model and the code differ
+        singles = [(garr, st, [mk]) for mk in mkeys]
+        sres = [[r] for r in sink['results'][i]]
+        kb = C.coq_mismatches(U.IMPORTS, 'cx_case', U.CASE_TY, U.RES_TY, singles, sres, shard=8)
+        j = kb[0] if kb else 0
+        model = C.coq_eval(U.IMPORTS, f'cx_case {C.coq(singles[j])}')
+        m['key'] = m['keys'][j]
+        m['impl'] = m['impl'][j]
+        del m['keys']
         rep.violation(f'cx-differs-from-model:{m["kind"]}',
                       '.cx selects other rows than the proven model (Model/Cx.v) on the same buffers, '
                       'index permutation and keys',
@@ -303,11 +327,18 @@ def flush(rep, sink):
     bad = C.coq_mismatches(U.IMPORTS, 'bounds_case', U.CASE_TY, U.BRES_TY, sink['bcases'],
                            sink['bresults'], shard=120)
     for i in bad[:10]:
-        m = sink['bmetas'][i]
-        model = C.coq_eval(U.IMPORTS, f'bounds_case {C.coq(sink["bcases"][i])}')
+        m = dict(sink['bmetas'][i])
+        garr, st, mkeys = sink['bcases'][i]
+        singles = [(garr, st, [mk]) for mk in mkeys]
+        sres = [[r] for r in sink['bresults'][i]]
+        kb = C.coq_mismatches(U.IMPORTS, 'bounds_case', U.CASE_TY, U.BRES_TY, singles, sres, shard=8)
+        j = kb[0] if kb else 0
+        model = C.coq_eval(U.IMPORTS, f'bounds_case {C.coq(singles[j])}')
+        m['key'] = m['keys'][j]
+        del m['keys']
         rep.violation(f'get-bounds-differs-from-model:{m["kind"]}',
                       '_get_bounds computes another box than the model (defaults / swap / step)',
-                      {**m, 'impl': sink['bresults'][i], 'model': model})
+                      {**m, 'impl_x0_x1_y0_y1': sink['bresults'][i][j], 'model': model})
     for k in sink:
         sink[k] = []
 
@@ -331,6 +362,7 @@ def configs_for(rng, n, full):
             out.append(c)
     if not full:
         rng.shuffle(out)
+    out.append(('prop',))
     out.append(('twice', rng.choice([1, 2, 3]), rng.choice(PS), rng.choice([1, 512]), rng.choice(PS)))
     return [None] + out
 
@@ -350,7 +382,7 @@ def gen_families(rep, tier):
         for a, b in (pairs if not quick else rng.sample(pairs, 3)):
             yield (kind, 'float64', [a, b], None)
     # (b) seeded structured stream
-    nstream = 22 if quick else 700
+    nstream = 22 if quick else 300
     for kind in G.KINDS:
         for i in range(nstream):
             n = rng.choice([1, 2, 3, 3, 4, 5, 6, 8, 12]) if quick or rng.random() < .7 \
@@ -379,12 +411,17 @@ def run(rep):
                 'sliced / taken from a parent whose index was built first) x 29 keys (all 25 pairs of '
                 'axis patterns both/reversed/start-only/stop-only/omitted on the half grid biased to the '
                 'data extent, 3 scalar forms, 1 step) x index states (none; page_size in {1,2,3,n,512} x '
-                'p in {1,10}; build_sindex twice) x containers (array; GeoSeries with non-unique '
+                'p in {1,10}; the lazy .sindex property; build_sindex twice) x containers (array; GeoSeries with non-unique '
                 'labels; GeoDataFrame with payload, second geometry column, geometry not first). '
                 'one evaluation = one (array, index state, key) compared with the Coq model; '
                 'non-trivial = a positive box selecting some but not all rows')
     sink = new_sink()
     nfam = 0
+    # multipoints_intersect_bounds is the one parallel (prange) kernel on the path; on a busy
+    # machine every parallel call costs tens of milliseconds of thread start-up, and the
+    # check makes ~10^5 calls on arrays of a dozen rows: run it on one thread
+    import numba
+    numba.set_num_threads(1)
     for kind, st, els, child in gen_families(rep, tier):
         try:
             fam = Family(rng, kind, st, els, child)
